@@ -3,6 +3,7 @@ import OdmlModel.Model.XmlCsv
 import OdmlModel.Model.XmlDoc
 import OdmlModel.Model.Xml
 import OdmlModel.Model.XmlRepr
+import OdmlModel.Model.XmlTok
 import Driver.Util
 import Driver.Loop
 open Lean Drv
@@ -141,9 +142,54 @@ def encRErr : RErr → Json
   | .leak => "leak"
   | .unmodelled => "unmodelled"
 
+/-- a temporal object of the harness: `a` = the constructor fields, `off` = null or [neg, secs] -/
+def decOff (j : Json) : Except String (Option Off) :=
+  match j.getObjVal? "off" with
+  | .ok (.arr #[.bool n, .num s]) => pure (some ⟨n, s.mantissa.toNat⟩)
+  | .ok .null => pure none
+  | .error _ => pure none
+  | .ok _ => throw "bad offset"
+
+def natsOf (j : Json) (k : String) : Except String (List Nat) := do
+  (← getArr j k).toList.mapM fun x => match x with
+    | .num n => pure n.mantissa.toNat
+    | _ => throw "bad field"
+
+def encOptStr : Option Str → Json
+  | none => Json.null
+  | some s => jchars s
+
+/-- `tokobj`: object of class `obj` handed to a Property of dtype `kind` ->
+    str(obj), the text of the stored value (null: refused), what the reader makes of that text,
+    and what it would make of the object's own text -/
+def tokObj (j : Json) : Except String Json := do
+  let obj ← getStr j "obj"
+  let kind ← getStr j "kind"
+  let a ← natsOf j "a"
+  let off ← decOff j
+  let fold := (getBool j "fold").toOption.getD false
+  let out (own : Str) (stored : Option Str) : Json :=
+    jobj [("str", jchars own), ("stored", encOptStr stored),
+          ("back", encOptStr (stored.bind (stdTok kind))), ("own", encOptStr (stdTok kind own))]
+  match obj, kind, a with
+  | "time", "time", [h, mi, s, us] =>
+    let o : TimeObj := ⟨⟨h, mi, s, us⟩, off, fold⟩
+    pure (out o.str ((timeGetObj o).map Py.Time.iso))
+  | "datetime", "datetime", [y, mo, d, h, mi, s, us] =>
+    let o : DateTimeObj := ⟨⟨⟨y, mo, d⟩, ⟨h, mi, s, us⟩⟩, off, fold⟩
+    pure (out o.str ((datetimeGetObj o).map Py.DateTime.str))
+  | "datetime", "date", [y, mo, d, h, mi, s, us] =>
+    let o : DateTimeObj := ⟨⟨⟨y, mo, d⟩, ⟨h, mi, s, us⟩⟩, off, fold⟩
+    pure (out o.str ((dateGetDateTimeObj o).map Py.Date.iso))
+  | "date", "date", [y, mo, d] =>
+    let o : Py.Date := ⟨y, mo, d⟩
+    pure (out o.iso ((dateGetObj o).map Py.Date.iso))
+  | _, _, _ => throw "bad tokobj request"
+
 def handle (j : Json) : Except String Json := do
   let op ← getStr j "op"
   match op with
+  | "tokobj" => tokObj j
   | "csv_write" => pure (jchars (Py.Csv.writeRow (← strList j "row")))
   | "csv_read" => pure (encCsvRes (Py.Csv.readFirst (← getStr j "s").toList))
   | "to_csv" => pure (jchars (toCsv (← strList j "vals")))
